@@ -1978,6 +1978,8 @@ package sftp
 //@   requires fileOK(f)
 //@   ensures err == nil ==> fi != nil
 //@   ensures f.offset == old(f.offset) && f.handle == old(f.handle)
+//@   update after call (*Client).fstat#1: ghost.fstN = ghost.fstN + 1
+//@   ensures err == nil ==> ghost.fstN == old(ghost.fstN) + 1
 
 //@ ghost var dOff int64
 
@@ -2290,6 +2292,7 @@ package sftp
 //@   modifies nothing
 
 //@ ghost var wfail bool
+//@ ghost var fstN int
 //@ ghost var lkHeld bool
 //@ ghost var wroteIt bool
 //@ ghost var ccWaited bool
